@@ -57,8 +57,9 @@ def check_assembly(case, ctx):
     # penalty constants - not the assembly's own get_k0_conn
     if conn:
         from compmech.panel.connections import calc_kt_kr
-        from .C12 import ref_conn, _embed2
+        from .C12 import ref_conn, _embed2, _eval_abs
         Kc_ref = np.zeros((size, size))
+        conn_floor = 0.
         for cn in case['conn']:
             i1, i2 = cn['p1'], cn['p2']
             q1, q2 = panels[i1], panels[i2]
@@ -75,9 +76,14 @@ def check_assembly(case, ctx):
             dsb = (pkg.lam_h(case['panels'][i1]) + pkg.lam_h(case['panels'][i2])) / 2.
             Kc_ref += _embed2(ref_conn(cn['func'], pd1, pd2, kt, kr if kr is not None else 0., pos1, pos2, dsb), pd1.ndof, pd2.ndof,
                               q1.row_start, q2.row_start, size)
+            if pos1 is not None:
+                # interface on an edge where the trial functions vanish: cancellation-free floor (see C12.check_kernel)
+                axis = 'y' if cn['func'] in ('SSycte', 'BFycte') else 'x'
+                (a0, a1), (b0, b1) = _eval_abs(pd1, axis, pos1), _eval_abs(pd2, axis, pos2)
+                conn_floor += 50 * 2.2e-16 * (pd1.a if axis == 'y' else pd1.b) * (kt * (a0 + b0) ** 2 + (kr or 0.) * (a1 + b1) ** 2)
         ctx.label(*['conn:%s:%s' % (cn['func'], 'p1-first' if panels[cn['p1']].row_start < panels[cn['p2']].row_start else 'p2-first')
                     for cn in case['conn']])
-        ctx.close('k0_conn', Kc, Kc_ref, 1e-9, bucket=name + '.k0_conn!=sum-of-connection-matrices')
+        ctx.close('k0_conn', Kc, Kc_ref, 1e-9, bucket=name + '.k0_conn!=sum-of-connection-matrices', atol=conn_floor)
         Kc = Kc_ref
     S0 = Kc.copy()
     SG = np.zeros((size, size))
